@@ -65,7 +65,9 @@ def hist_to_scenario(hist, sid, pool, nf, diff, reuse_sites=False):
             if h["n"] >= 0:
                 site += 1
                 st["site"] = h["site"] if reuse_sites else site
-                st["flavour"] = "counted"
+                # every third scenario on the Rust pools: the counted fake is a hand-written pair (counting function +
+                # CallCountVerifier::WithCount) that goes in through when_called_unchecked(..).will_execute(..)
+                st["flavour"] = "countedpair" if (pool in ("rust", "rustpg") and h["gate"] == "ok" and sid % 3 == 2) else "counted"
             elif h["kind"] == "bool":
                 st["flavour"] = "bool"
             else:
@@ -358,7 +360,7 @@ def lifecycle_check(prop, tier):
             sc["pool"] = "rustpg" if sc["pool"] == "rustpg" else "rust"
             for life in sc["lives"]:
                 for st in life["steps"]:
-                    if st.get("op") == "install" and st.get("flavour") not in JUMP_FLAVOURS + ["counted", "bool"]:
+                    if st.get("op") == "install" and st.get("flavour") not in JUMP_FLAVOURS + ["counted", "countedpair", "bool"]:
                         st["flavour"] = "raw"
             # sites are per process: fine (each scenario is its own child)
             scen.append(sc)
@@ -400,7 +402,7 @@ def lifecycle_check(prop, tier):
             for life in sc["lives"]:
                 life["deny"] = "page"
                 for st in life["steps"]:
-                    if st.get("op") == "install" and st.get("flavour") not in JUMP_FLAVOURS + ["counted", "bool"]:
+                    if st.get("op") == "install" and st.get("flavour") not in JUMP_FLAVOURS + ["counted", "countedpair", "bool"]:
                         st["flavour"] = "raw"
             scen.append(sc)
             hists.append(hists[i])
